@@ -232,7 +232,8 @@ class FortranGen:
                      2.0 if "<state>v" in self.types else 0,   # 15 second user type "v"
                      1.2 if "<state>r" in self.types else 0,   # 16 two conditional expressions, same condition
                      1.0 if "<state>r" in self.types and depth >= 2 else 0,   # 17 array overwritten with other length
-                     0.9]                    # 18 user function with two user-type results
+                     0.9,                    # 18 user function with two user-type results
+                     1.0 if "<state>r" in self.types else 0]   # 19 scalar assigned an integer and a real
                 k = t.weighted(w, "opkind")
                 op = self.gen_op(k, D, depth)
                 if op is None:
@@ -504,6 +505,50 @@ class FortranGen:
                     kws.reverse()
                 return ("call", (tgt,), Call("<builtin>matmul", [Var(a), Var(a)], kws), self.mode())
             return ("call", (tgt,), Call("<builtin>matmul", [Var(a), Var(a), Const(c), Const(r)]), self.mode())
+        if k == 19:
+            # one scalar holds an integer-valued result (len) and a real value in the same phase, in either
+            # order; its kind is the join of both, and the real value must survive
+            arrs = sorted(n for n in D if isinstance(self.types.get(n), tuple))
+            if self.struct and not arrs:
+                return None
+            cands = [x for x in SC_TEMPS if self.cls.get(x, "inexact") == "inexact"]
+            tgt = self.new_name(cands, "real", D)
+            if tgt is None:
+                return None
+            self.cls[tgt] = "inexact"
+            D.add(tgt)
+            src = self.pick(arrs, "lena") if arrs and (self.struct or t.chance(0.5, "lenarr")) else self.pick(uts, "lenu")
+            a_int = ("call", (tgt,), Call("<builtin>len", [Var(src)]), self.mode())
+            a_real = ("assign", tgt, None, Bin("*", Const(self.pick([0.75, 0.375, 1.25], "mixc")), Var("<dt>")), [],
+                      self.mode())
+
+            def use():
+                return ("assign", "<state>r", None, Bin("+", Var("<state>r"), Var(tgt)), [], self.mode())
+            if t.chance(0.6, "mixsum"):
+                # ... or an integer-kinded term (an integer constant, or the counter of a loop around a plain
+                # scalar assignment: the last trip wins) meets a real term in one sum
+                real_term = Bin("*", Const(self.pick([0.75, 0.375, 1.25], "mixc2")), Var("<dt>"))
+                loops = []
+                if t.chance(0.5, "mixloop"):
+                    it = Var("i")
+                    loops = [("i", Const(0), Const(2 + t.draw(3, "mixn")))]
+                else:
+                    it = Const(self.pick([2, 1, 3, -1], "mixint"))
+                e = [Bin("+", real_term, it), Bin("+", it, real_term), Bin("*", real_term, it),
+                     Bin("-", it, real_term)][t.draw(4, "mixform")]
+                out = [("assign", tgt, None, e, loops, self.mode())]
+                if t.chance(0.5, "mixcopy"):
+                    # a plain copy of the result has no other source for its kind
+                    cp = self.new_name([x for x in cands if x != tgt], "real", D, reuse_p=0.0)
+                    if cp is not None and cp not in D:
+                        self.cls[cp] = "inexact"
+                        D.add(cp)
+                        out.append(("assign", cp, None, Var(tgt), [], self.mode()))
+                        out.append(("assign", "<state>r", None, Bin("+", Var("<state>r"), Var(cp)), [], self.mode()))
+                        return out
+                return out + [use()]
+            first, second = (a_int, a_real) if t.chance(0.5, "intfirst") else (a_real, a_int)
+            return [first, use(), second, use()]
         if k == 18:
             t1 = self.new_name(UT_TEMPS, "ut", D)
             t2 = self.new_name([n for n in UT_TEMPS if n != t1], "ut", D)
